@@ -384,6 +384,37 @@ def case_stock_driven(prog, cfg):
     return case
 
 
+def case_zero_roundtrip(prog, cfg):
+    """C10 at the zero driver: the round trip must return zero flows AND the (zero) cohort tables, like for any other driver"""
+    sw = SW(prog, cfg["n_t"], cfg["labels"])
+    dist = cfg["dist"]
+    case = SCase("zero-roundtrip", "StockDrivenDSM.compute", dict(cfg_desc(cfg), driver="identically zero"))
+    zero = SArr.full(sw.shape, 0)
+    tshape = (sw.n_t,) + tuple(sw.shape)
+    for cls_name, drv, solvers in (("InflowDrivenDSM", "inflow", (None,)), ("StockDrivenDSM", "stock", ("manual", "lapack"))):
+        for solver in solvers:
+            def go():
+                lm, _, _ = make_lifetime(sw, dist, cfg["over"], inflow_at=cfg["inflow_at"], n_pts=cfg["n_pts"])
+                st = build_stock(sw, cls_name, lm, **{drv: zero.copy()}, **({"solver": solver} if solver else {}))
+                sw.it.call_method(st, "compute")
+                return st
+            kind, st = run_guarded(go)
+            qual = f"{cls_name}.compute"
+            if kind != "ok":
+                case.v("inverse", False, f"{cls_name} ({solver or 'n/a'}) compute() on a zero {drv} ended with {kind}: {st}", qual)
+                continue
+            for k in ("stock", "inflow", "outflow"):
+                v = values(st.f[k])
+                case.v("inverse", all(x.is_zero() for x in v.data), f"{cls_name} ({solver or 'n/a'}) on a zero {drv}: {k} is not zero ({first_nonzero(v)})", qual)
+            for k in ("_stock_by_cohort", "_outflow_by_cohort"):
+                t = st.f.get(k)
+                ok = isinstance(t, SArr) and t.shape == tshape and all(x.is_zero() for x in t.data)
+                case.v("inverse", ok, f"{cls_name} ({solver or 'n/a'}) on a zero {drv}: the {k.strip('_').replace('_', '-')} table is "
+                                      f"{'not the zero table of shape ' + str(tshape) if isinstance(t, SArr) else 'not there (' + type(t).__name__ + ')'}; the round trip must "
+                                      f"return the same cohort tables as the other model (zeros)", qual)
+    return case
+
+
 def case_simple(prog, cfg):
     sw = SW(prog, cfg["n_t"], cfg["labels"])
     case = SCase("flow-driven", "SimpleFlowDrivenStock.compute", cfg_desc(cfg))
